@@ -3,11 +3,11 @@ from speaker_common import run_speaker
 
 
 def main(run):
-    run_speaker(run, ["C02_AdjInExact", "C02_LocRibExact", "C02_Counters", "C02_BestStream", "C02_Lookups"])
+    run_speaker(run, ["C02_AdjInExact", "C02_LocRibExact", "C02_Counters", "C02_BestStream", "C02_Lookups"], collide=True)
 
 
 RULE = ("same schedules and executions as C01 (SpeakerGen.tla on the real BgpServer); after every step TLC "
         "compares the white-box Adj-RIB-In of every neighbour (with rejected flags), the global table listing "
         "(best first) and the ListPeer received/accepted counters with AdjInExpected / LocRibExpected. "
         "non-trivial = distinct states with an established neighbour and a prefix with >= 2 candidates")
-ASSUMPTIONS = ["hash-colliding destinations are not provoked", "ADD-PATH receive is not covered by this check yet"]
+ASSUMPTIONS = ["hash-colliding destinations are provoked through the build-tag hook VerifKeyHook (key = hash mod 1), not with real colliding prefixes", "ADD-PATH receive is not covered by this check yet"]
